@@ -1,5 +1,7 @@
 SPECIFICATION GenSpec
 CONSTANT Which = "C17"
+CONSTANT SmallLen = 5
+CONSTANT AsBuilt = {}
 CONSTANT MaxLen = 3
 INVARIANT Export
 CHECK_DEADLOCK FALSE
